@@ -138,7 +138,7 @@ def ops_case(cid, desc):
     level = desc["level"]
     if level == "reader2":
         r = rng.random()
-        k = 0 if r < 0.08 else n if r < 0.16 else rng.randint(0, n)
+        k = 0 if r < 0.03 else n if r < 0.06 else rng.randint(0, n)
         parts = [(0, k), (k, n)]
     else:
         parts = [(0, n)]
@@ -250,7 +250,9 @@ def check_walk(vec, case, rows):
     bad, covered, unreached = [], set(), 0
     for r in rows:
         if r["k"] == "edge":
-            if not edge_ok(tab, vec["n"], r):
+            # an edge that starts from a mis-positioned object (src -3) is a consequence of the
+            # edge that mis-positioned it (dst -3), which is the one reported
+            if r["src"] != -3 and not edge_ok(tab, vec["n"], r):
                 bad.append(r)
         elif r["k"] == "cover":
             covered.add((r["src"], r["act"], r["arg"]))
@@ -476,7 +478,7 @@ def run(ctx):
     forced = [l for l in layouts if len(l) == 6 and sum(x + 1 for x in l) in (12, 13, 23, 24)]
     rng.shuffle(forced)
     pool = [l for l in layouts if len(l) >= 1]
-    picked = forced[: n_ops // 5] + [rng.choice(pool) for _ in range(n_ops - n_ops // 5 - 2)] + [[], []]
+    picked = forced[: n_ops // 5] + [rng.choice(pool) for _ in range(n_ops - n_ops // 5 - 1)] + [[]]
     descs = []
     for i, l in enumerate(picked):
         units = sum(x + 1 for x in l)
@@ -512,7 +514,7 @@ def run(ctx):
                              "panic in the code under test: %s" % p[0]["detail"][:200])
 
     # ---- A1 verdicts
-    a1_edges = a1_bad = a1_known = 0
+    a1_edges = a1_bad = a1_known = a1_unlisted = 0
     covered = total_triples = unreached = 0
     nontrivial = set()
     samples = []
@@ -554,6 +556,10 @@ def run(ctx):
             if (key, sig[1:]) in seen:
                 continue
             seen.update([key, (key, sig[1:])])
+            if key is None:
+                a1_unlisted += 1
+                if a1_unlisted > 25:
+                    continue
             want = sorted(e for e in edge_table(vec) if e[:3] == sig[:3])
             ctx.disagreement(key, {"kind": "walk", "vec": vec, "seed": ctx.seed, "case_index": c["id"] - 1,
                                    "edge": r, "admissible": want},
@@ -571,10 +577,11 @@ def run(ctx):
         abs_tr[c["id"]] = abs_records(c, rows)
         if c["level"] == "file":
             alg_tr[c["id"]] = alg_records(c, rows)
-    par = 4 if ctx.quick else 6
+    par = 3 if ctx.quick else 5
+    chunk = 40000 if ctx.quick else 200000
     with cf.ThreadPoolExecutor(max_workers=2) as ex:
-        fa = ex.submit(validate_traces, ctx, "TraceQLogFile", abs_tr, 250000, par, 1500)
-        fb = ex.submit(validate_traces, ctx, "TraceQLogFileAlg", alg_tr, 250000, par, 1500)
+        fa = ex.submit(validate_traces, ctx, "TraceQLogFile", abs_tr, chunk, par, 1500)
+        fb = ex.submit(validate_traces, ctx, "TraceQLogFileAlg", alg_tr, chunk, par, 1500)
         bad_abs, nrec_abs, st_abs, ch_abs = fa.result()
         bad_alg, nrec_alg, st_alg, ch_alg = fb.result()
     ctx.log("trace validation: abstract %d records (%d TLC steps, %d chunks), algorithm %d records (%d steps, %d chunks)" % (
@@ -590,7 +597,7 @@ def run(ctx):
         cids = [cid for cid in sorted(badmap) if cid in again]
         if not cids:
             continue
-        b2, _, _, _ = validate_traces(ctx, module, {cid: builder(case_of[cid], by2.get(cid, [])) for cid in cids}, 250000, par, 900)
+        b2, _, _, _ = validate_traces(ctx, module, {cid: builder(case_of[cid], by2.get(cid, [])) for cid in cids}, chunk, par, 900)
         for cid in cids:
             c = case_of[cid]
             oi = min(badmap[cid])
@@ -598,7 +605,7 @@ def run(ctx):
                 ctx.notes.append("%s rejection of case %d op %d not reproduced" % (which, cid, oi))
                 continue
             rec = [r for r in by2[cid] if r["k"] == "op" and r["oi"] == oi][0]
-            rec = {k: (v if not isinstance(v, list) or len(v) <= 12 else v[:12] + ["..."]) for k, v in rec.items()}
+            rec = {k: (v if not isinstance(v, list) or len(v) <= 6 else v[:3] + ["..."] + v[-3:]) for k, v in rec.items()}
             key = classify(c, rec) if which == "abstract" else None
             ops_bad += 1
             if key:
@@ -613,11 +620,14 @@ def run(ctx):
     sizes = sorted(sum(l + 1 for f in c["files"] for l in f["len"]) for c in ocases)
     calls_ops = sum(r["calls"] for c in ocases for r in by.get(c["id"], []) if r["k"] == "done")
     seeks_ops = sum(1 for c in ocases for r in by.get(c["id"], []) if r["k"] == "op" and r["op"] == "seek")
-    if covered < total_triples * 0.98 - a1_known:
-        # states behind a known finding may be unreachable by seeks, but SeekStart+reads reach all
-        raise vlib.Inconclusive("edge cover incomplete: %d of %d (unreached %d)" % (covered, total_triples, unreached))
-    if not abs_tr or not alg_tr:
-        raise vlib.Inconclusive("no op traces")
+    if not ctx.violations:
+        # (a reproduced violation is reported even if it made the rest of the run incomplete)
+        if covered < total_triples * 0.98:
+            raise vlib.Inconclusive("edge cover incomplete: %d of %d (unreached %d)" % (covered, total_triples, unreached))
+        if not abs_tr or not alg_tr:
+            raise vlib.Inconclusive("no op traces")
+        if hangs and not any("watchdog" in n for n in ctx.notes):
+            raise vlib.Inconclusive("hang observed but not settled")
     oc = ocases[len(ocases) // 2]
     samples.append({"ops_case": desc_of[oc["id"]], "bytes": [sum(l + 1 for l in f["len"]) for f in oc["files"]],
                     "lines": [len(f["ts"]) for f in oc["files"]],
